@@ -301,16 +301,14 @@ def run():
         finish(oblig.check_paths(eng, ps, "rehash: regrouping key is (file length, new hash), value is the file", kprop, fn(),
                                  key="rehash:key"), "key")
 
-        # task closure composed with the hash closure of every stage
-        task = [g for g in prog.fns.values() if g.name.startswith(rh.name + "::{closure#") and g.name.count("{closure#") == 3
-                and g.ret.strip() == "()" and len(g.args) == 1 and "send" in g.text and "call" in g.text]
-        if len(task) != 1:
-            raise Inconclusive("rehash task closure: %d candidates" % len(task))
-        task = task[0]
-        span = task.args[0][1]
-        names = oblig.capture_names(prog, span)
-        if not names or "fg" not in names:
-            raise Inconclusive("captures of the rehash task closure not identified: %s" % names)
+        # task closure (the closure handed to the thread pool; helpers of group.rs inlined) composed with the hash closure of every stage
+        from obligations.C03 import TASK_LEAVES
+        task, span, caps = oblig.spawned_task(prog, rh)
+        lists = [i for i, (nme, ty) in enumerate(caps) if "Vec<" in ty and "HashedFileInfo" in ty]
+        if len(lists) != 1:
+            raise Inconclusive("captures of the rehash task closure not identified: %s" % caps)
+        names = [("fg" if i == lists[0] else nme) for i, (nme, ty) in enumerate(caps)]
+        tinl = oblig.module_inliner(prog, "group.rs", TASK_LEAVES)
         for stg in ("group_by_prefix", "group_by_suffix", "group_by_contents", "group_transformed"):
             sps, seng = stage(prog, stg, engs)
             p = sps[0]
@@ -324,7 +322,7 @@ def run():
             clo = Agg(span, fields)
             same_len = z3.BitVec("m0.file_info.len.0", 64) == z3.BitVec("m1.file_info.len.0", 64)
             extra = {r"^<dyn .*Fn.* as (std::ops::)?Fn(Mut|Once)?<.*>>::call(_mut|_once)?$|^<dyn .*Fn.*>::call$": oblig.invoke_closure_summary(prog, hclo)}
-            sub = oblig.engine(prog, unroll=3, inline=INL, extra=extra)
+            sub = oblig.engine(prog, unroll=3, inline=lambda c, t: bool(re.search(INL, t.name)) or tinl(c, t), extra=extra)
             mem = dict(p.mem)
             qs = sub.run(task, args=[clo], pre=list(p.pc) + [same_len], mem=mem)
             seng.encoded.update(sub.encoded)
